@@ -10,6 +10,7 @@ Exit status: 0 ok; on a pattern that is no longer found the generated file conta
 with the names, which breaks the `Generated` sanity theorems (tie broken -> search for a failing input)."""
 import ast
 import os
+import re
 import sys
 
 REPO = os.environ.get("PFDL_REPO", "/repo")
@@ -134,6 +135,58 @@ def extract():
             fails.append(k)
             lists[k] = []
     out["lists"] = lists
+    # precedence of the expression rule, from the generated parser ---------------------------------
+    prec, unary = [], None
+    try:
+        with open(os.path.join(REPO, "pfdl_scheduler/parser/PFDLParser.py")) as f:
+            src = f.read()
+        lit = ast.literal_eval(re.search(r"literalNames = (\[.*?\])", src, re.S).group(1))
+        tokno = {m.group(1): int(m.group(2)) for m in re.finditer(r"^    ([A-Z_0-9]+)=(\d+)$", src, re.M)}
+
+        def text_of(tok):
+            return lit[tokno[tok]].strip("'")
+
+        m = re.search(r"\n    def binOperation\(self\):(.*?)\n    def ", src, re.S)
+        cmp_ops = [text_of(t) for t in re.findall(r"1 << PFDLParser\.([A-Z_]+)", m.group(1))]
+        m = re.search(r"\n    def unOperation\(self\):(.*?)\n    def ", src, re.S)
+        un_ops = [text_of(t) for t in re.findall(r"self\.match\(PFDLParser\.([A-Z_]+)\)", m.group(1))]
+        m = re.search(r"\n    def expression\(self, _p:int=0\):(.*?)\n    class ", src, re.S)
+        body = m.group(1)
+        cur = None
+        pending_un = False
+        for line in body.splitlines():
+            mm = re.search(r"if not self\.precpred\(self\._ctx, (\d+)\)", line)
+            if mm:
+                cur = {"prec": int(mm.group(1)), "ops": None}
+                continue
+            if "self.unOperation()" in line:
+                pending_un = True
+                continue
+            mm = re.search(r"self\.match\(PFDLParser\.([A-Z_]+)\)", line)
+            if mm and cur is not None and cur["ops"] is None:
+                cur["ops"] = [text_of(mm.group(1))]
+                continue
+            if "self.binOperation()" in line and cur is not None and cur["ops"] is None:
+                cur["ops"] = cmp_ops
+                continue
+            mm = re.search(r"self\.expression\((\d+)\)", line)
+            if mm:
+                if pending_un:
+                    unary = int(mm.group(1))
+                    pending_un = False
+                elif cur is not None and cur["ops"] is not None:
+                    for o in cur["ops"]:
+                        prec.append((o, cur["prec"], int(mm.group(1))))
+                    cur = None
+        if un_ops != ["!"]:
+            unary = None
+    except Exception:  # noqa: BLE001
+        prec, unary = [], None
+    if not prec or unary is None:
+        fails.append("precTable")
+        unary = unary or 0
+    out["prec"] = prec
+    out["unary"] = unary
     out["fails"] = fails
     return out
 
@@ -141,6 +194,8 @@ def extract():
 def render(x):
     ops = ", ".join("(%s, .%s)" % (lean_str(k), fn) for k, fn in x["ops"])
     wiring = ", ".join("(%s, %s)" % (lean_str(a), lean_str(b)) for a, b in x["wiring"])
+
+    prec = ", ".join("(%s, %d, %d)" % (lean_str(o), a, b) for o, a, b in x["prec"])
 
     def strlist(l):
         return "[" + ", ".join(lean_str(s) for s in l) + "]"
@@ -177,6 +232,13 @@ def arithOps : List String := {strlist(x["lists"]["arithOps"])}
 def primitives : List String := {strlist(x["lists"]["primitives"])}
 /-- `SemanticErrorChecker.check_single_expression`: attribute types allowed as a whole condition. -/
 def condTypes : List String := {strlist(x["lists"]["condTypes"])}
+
+/-- `PFDLParser.expression` (generated from the grammar's alternative order): operator, its precedence
+    `precpred(_ctx, n)`, and the minimum precedence `expression(m)` of its right operand. -/
+def precTable : List (String × Nat × Nat) :=
+  [{prec}]
+/-- `unOperation expression(m)`: minimum precedence of the operand of `!`. -/
+def unaryPrec : Nat := {x["unary"]}
 
 /-- patterns the extractor no longer found in the sources (must be empty) -/
 def extractionFailures : List String := {strlist(x["fails"])}
